@@ -94,6 +94,13 @@ def build_jobs(tier, seed, stats, rng):
         for toks, rd in prs:
             doc_events(b2, sch2, rd, toks, rng, slices, True, 12, 10)
         jobs.append((b2, f"T helpers[{name}]"))
+    # shaped documents: every position / pair of textblocks with several differently marked children next to code blocks
+    schS, jsS, prsS = universe.shaped_test_docs()
+    bS = trace.Batch(jsS)
+    slS = c11.slice_pool([rd for _, rd in prsS], rng, 4)
+    for toks, rd in prsS:
+        doc_events(bS, schS, rd, toks, rng, slS, True, 1000, 60)
+    jobs.append((bS, "T helpers[shaped test]"))
     for name, spec in (("s5", c15.S5), ("struct", c15.STRUCT)):
         from prosemirror.model import Schema
         sch3 = Schema(spec)
